@@ -271,7 +271,7 @@ def pipe_property_checks(pid, case, i):
     """direct statement of each property on the REAL observations (the failing input is the case itself)"""
     sc = case["scenario"]
     out = []
-    if pid == "C04" and sc.startswith("data:") and "err" in case["oracle"]:
+    if pid == "C04" and sc.startswith("data:") and ("err" in case["oracle"] or "panic" in case["oracle"]) and "report-encode" not in sc:
         if i.get("outcome") == "ok":
             out.append(("report-for-unreadable-data", f"{sc}: entry {case['entry']} returned a report (conforms={i.get('conforms')}) for data that cannot be read"))
         elif i.get("outcome") == "panic":
@@ -296,6 +296,10 @@ def pipe_property_checks(pid, case, i):
             want = 0
         if i.get("outcome") in ("ok", "err") and i.get("closes") != want:
             out.append(("close-count", f"{sc}: entry {case['entry']} outcome {i.get('outcome')}: channel closed {i.get('closes')} times, expected {want}"))
+        if i.get("outcome") == "panic" and "close of closed channel" in str(i.get("err")):
+            out.append(("closed-twice", f"{sc}: entry {case['entry']}: the library closed the caller's channel a second time (panic: close of closed channel) after events {evs}"))
+        elif i.get("outcome") == "panic" and "send on closed channel" in str(i.get("err")):
+            out.append(("send-after-close", f"{sc}: entry {case['entry']}: the library sent an event after closing the channel (events {evs})"))
         if i.get("outcome") in ("ok", "err"):
             ndone = sum(1 for e in evs if e % 2 == 1)
             ms = i.get("milestones") or []
@@ -896,11 +900,11 @@ def check_C10(ctx):
     # search side: the race detector and serial/parallel comparison (never a substitute for the theorems)
     try:
         race_bin = build_harness(race=True)
-        rounds = 2 if ctx.quick() else 12
+        rounds = 3 if ctx.quick() else 12
         total_calls, bad = 0, 0
         for r in range(rounds):
             env = dict(os.environ, GORACE="halt_on_error=0 history_size=2")
-            p = subprocess.run([race_bin, "racestress", str(ctx.seed * 100 + r), "12" if ctx.quick() else "24", "6" if ctx.quick() else "12"],
+            p = subprocess.run([race_bin, "racestress", str(ctx.seed * 100 + r), "16" if ctx.quick() else "24", "8" if ctx.quick() else "12"],
                                capture_output=True, text=True, timeout=1800, env=env)
             out = None
             for l in p.stdout.split("\n"):
@@ -1047,6 +1051,8 @@ def cmp_c08(case, i, m):
     if "error" in m:
         return ("~model-error", "model driver rejected the case: " + m["error"])
     where = f"{case['builtin']} at position {case['position']} ({case['syntax']})"
+    if case.get("via"):
+        where += f" through {'Validate' if case['via'] == 'validate' else 'ValidateWithConfiguration under report configuration ' + json.dumps(case.get('rc'))}"
     if i.get("outcome") == "panic":
         return ("panic", f"{where}: CompileProfile panicked: {str(i.get('err'))[:150]}")
     if case.get("flaw"):
@@ -1085,7 +1091,7 @@ def check_C08(ctx):
         broken.append(b)
     ctx.coverage["rule"] = ("every built-in registered in the linked engine (thorough: all; quick: the 5 forbidden ones everywhere + a 6% sample of the rest) x 12 embedding positions (rego, regoModule, code/message form, not, and, or, if, "
                             "path-level rego, nested, atLeast, helper function in rego_extensions called from a rule, helper never called) x 4 call syntaxes (assignment, inside a comprehension, as argument of another call, bare statement); "
-                            "for the forbidden ones also `with <function> as <built-in>` bindings (to a built-in and to a rego_extensions helper of the same arity) and modules with a second defect (keywords used as names, syntax/type errors, unknown functions, unsafe variables, unterminated strings); type-correct sample arguments from the built-in's declaration; only CompileProfile is called, so nothing is evaluated")
+                            "for the forbidden ones also `with <function> as <built-in>` bindings (to a built-in and to a rego_extensions helper of the same arity) and modules with a second defect (keywords used as names, syntax/type errors, unknown functions, unsafe variables, unterminated strings); type-correct sample arguments from the built-in's declaration; for the forbidden ones the profile is also handed to Validate and to ValidateWithConfiguration under several report configurations (an error must come back); otherwise only CompileProfile is called, so nothing is evaluated")
     ctx.assumptions += ["the engine's capability check (rego.UnsafeBuiltins) is a dependency: modelled at term level (C08Term), tied by the matrix", "js/validator.go (WASM entry, build-constrained) calls the same internal pipeline and is not loaded by the inventory"]
     return conclude(ctx, broken, trusted=TRUST_COMMON + ["go/packages-based inventory of engine API calls"])
 
@@ -1152,6 +1158,20 @@ C05_CONTEXT_THEOREMS = ["Acv.C05.expand_spelling", "Acv.C05.expand_spelling_obj"
                         "Acv.C05.normC_ser", "Acv.C05.normC_eq_norm_arr", "Acv.C05.normC_eq_norm_obj", "Acv.C05.normC_wellFormed"]
 
 
+def _canon_message_lists(verdicts):
+    """verdicts with every bracketed list inside a result message sorted: equal iff the results differ only in the ORDER in which
+    a message lists the values of a multi-valued property"""
+    def canon(r):
+        return re.sub(r"\[([^\[\]]*)\]", lambda m: "[" + ", ".join(sorted(m.group(1).split(", "))) + "]", r)
+    out = []
+    for v in verdicts:
+        if isinstance(v, dict):
+            out.append({"conforms": v.get("conforms"), "results": sorted(canon(r) for r in v.get("results", []))})
+        else:
+            out.append(v)
+    return out
+
+
 def check_C05(ctx):
     broken = []
     try:
@@ -1180,6 +1200,14 @@ def check_C05(ctx):
                     desc = ("rejected", f"serialisation `{d['form']}` of a graph is not accepted: {di['outcome'][:150]}")
                 elif any(a != b for a, b in zip(di["verdicts"], base["verdicts"]) if a != "timeout" and b != "timeout"):   # an evaluation that ran out of time was not evaluated
                     desc = ("verdict", f"serialisation `{d['form']}` gives different results than the flat document for the same graph")
+                    if not any(a != b for a, b in zip(_canon_message_lists(di["verdicts"]), _canon_message_lists(base["verdicts"])) if a != "timeout" and b != "timeout"):
+                        # same results up to the order in which a message lists the values of a multi-valued property
+                        # (a listed known finding: printed as KNOWN-FINDING, recorded in the evidence, not counted against the obligation)
+                        nv = len(ctx.violations)
+                        ctx.violation("C05:message-value-order", f"serialisation `{d['form']}`: a result message lists the values of a multi-valued property in document order, so it differs from the flat document's",
+                                      {"graph": case["graph"], "doc": d, "flat": case["docs"][0], "impl": di, "impl_flat": base, "profiles": case["profiles"]})
+                        bad += len(ctx.violations) - nv
+                        continue
                 elif di["index"] != base["index"]:
                     desc = ("index", f"serialisation `{d['form']}` normalises to a different index than the flat document for the same graph")
                 elif not dm.get("skipped"):
